@@ -44,7 +44,22 @@ var hierHashes = func() []string {
 	return out
 }()
 
+var hierDigestTab = func() (t [2]map[string]digest.Digest) {
+	for o := 0; o < 2; o++ {
+		t[o] = map[string]digest.Digest{}
+		for _, l := range [][]string{hierStoreNames, hierQueryNames} {
+			for _, n := range l {
+				t[o][n] = digest.MustNewDigest(n, remoteexecution.DigestFunction_SHA256, hierHashes[o], 42)
+			}
+		}
+	}
+	return
+}()
+
 func hierDigest(obj int, name string) digest.Digest {
+	if d, ok := hierDigestTab[obj][name]; ok {
+		return d
+	}
 	return digest.MustNewDigest(name, remoteexecution.DigestFunction_SHA256, hierHashes[obj], 42)
 }
 
@@ -121,13 +136,18 @@ func describePlacement(names []string, placement int) string {
 	return strings.Join(p, " ")
 }
 
-func runHierGet(c hierGetCase) (msg, sig, outcome string, calls int) {
+// runHierGet runs one case; m may be a reusable backend already holding
+// c.Placement (reads do not modify it) or nil.
+func runHierGet(m *sim.ModelBlobAccess, c hierGetCase) (msg, sig, outcome string, calls int) {
 	defer func() {
 		if p := recover(); p != nil {
 			msg, sig = fmt.Sprintf("panic: %v", p), "hier:"+c.Op+":panic"
 		}
 	}()
-	m := hierBackend(hierStoreNames, c.Placement)
+	if m == nil {
+		m = hierBackend(hierStoreNames, c.Placement)
+	}
+	m.Calls, m.Hook = nil, nil
 	fh := &faultHook{at: c.Fault}
 	if c.Fault >= 0 {
 		m.Hook = fh.hook
@@ -151,7 +171,9 @@ func runHierGet(c hierGetCase) (msg, sig, outcome string, calls int) {
 		got = pm.(*remoteexecution.ActionResult).GetExitCode()
 	}
 	want := hierLookup(hierStoreNames, c.Placement, c.Obj, c.Name)
-	where := fmt.Sprintf("%s(obj%d under %q) with [%s]", c.Op, c.Obj, c.Name, describePlacement(hierStoreNames, c.Placement))
+	where := lazyString(func() string {
+		return fmt.Sprintf("%s(obj%d under %q) with [%s]", c.Op, c.Obj, c.Name, describePlacement(hierStoreNames, c.Placement))
+	})
 	if fh.fired {
 		outcome = fmt.Sprintf("%s:fault@%d:%s", c.Op, c.Fault, sim.Code(err))
 		if err == nil {
@@ -188,11 +210,12 @@ func hierGetSub(r *ev.Run) {
 	type res struct{ evals, nontriv int64 }
 	results := make([]res, 1<<nbits)
 	par.For(1<<nbits, func(pl int) {
+		m := hierBackend(hierStoreNames, pl)
 		for _, n := range hierQueryNames {
 			for o := 0; o < 2; o++ {
 				for _, op := range []string{"Get", "GetFromComposite"} {
 					c := hierGetCase{Placement: pl, Name: n, Obj: o, Op: op, Fault: -1}
-					msg, sig, oc, calls := runHierGet(c)
+					msg, sig, oc, calls := runHierGet(m, c)
 					results[pl].evals++
 					// non-trivial: more than one ancestor-or-self holds a copy, or the
 					// copy is found at a proper ancestor.
@@ -218,7 +241,7 @@ func hierGetSub(r *ev.Run) {
 					}
 					for k := 0; k < calls; k++ {
 						c.Fault = k
-						msg, sig, oc, _ := runHierGet(c)
+						msg, sig, oc, _ := runHierGet(m, c)
 						results[pl].evals++
 						outcomes.Add(oc)
 						if msg != "" {
@@ -249,15 +272,50 @@ type hierFMCase struct {
 	Fault      int      `json:"fault"`
 }
 
-func runHierFM(m *sim.ModelBlobAccess, c hierFMCase) (msg, sig, outcome string, calls int) {
+// hierFMPlan holds what is constant for one placement: the backend and, per
+// digest of the universe, the reference verdict.
+type hierFMPlan struct {
+	storeNames []string
+	placement  int
+	m          *sim.ModelBlobAccess
+	d          []digest.Digest
+	ds         []string
+	kind       []string // "self", "up<k>/<chain length>", "missing/<chain length>"
+	missing    []bool
+}
+
+func newHierFMPlan(storeNames []string, placement int) *hierFMPlan {
+	p := &hierFMPlan{storeNames: storeNames, placement: placement, m: hierBackend(storeNames, placement)}
+	for o := 0; o < 2; o++ {
+		for _, n := range hierFMQueryNames {
+			d := hierDigest(o, n)
+			p.d = append(p.d, d)
+			p.ds = append(p.ds, d.String())
+			l := hierLookup(storeNames, placement, o, n)
+			switch {
+			case l < 0:
+				p.kind = append(p.kind, fmt.Sprintf("missing/%d", len(chain(n))))
+			case storeNames[l] == n:
+				p.kind = append(p.kind, "self")
+			default:
+				p.kind = append(p.kind, fmt.Sprintf("up%d/%d", len(chain(n))-len(chain(storeNames[l])), len(chain(n))))
+			}
+			p.missing = append(p.missing, l < 0)
+		}
+	}
+	return p
+}
+
+func runHierFM(p *hierFMPlan, c hierFMCase) (msg, sig, outcome string, calls int) {
 	defer func() {
-		if p := recover(); p != nil {
-			msg, sig = fmt.Sprintf("panic: %v", p), "hier:FindMissing:panic"
+		if pn := recover(); pn != nil {
+			msg, sig = fmt.Sprintf("panic: %v", pn), "hier:FindMissing:panic"
 		}
 	}()
-	if m == nil {
-		m = hierBackend(c.StoreNames, c.Placement)
+	if p == nil {
+		p = newHierFMPlan(c.StoreNames, c.Placement)
 	}
+	m := p.m
 	m.Calls = nil
 	fh := &faultHook{at: c.Fault}
 	m.Hook = nil
@@ -265,22 +323,14 @@ func runHierFM(m *sim.ModelBlobAccess, c hierFMCase) (msg, sig, outcome string, 
 		m.Hook = fh.hook
 	}
 	ba := blobstore.NewHierarchicalInstanceNamesBlobAccess(m)
-	var ds []digest.Digest
-	var want []string
-	var kinds []string
+	ds := make([]digest.Digest, 0, len(c.Digests))
+	want := make([]string, 0, len(c.Digests))
+	kinds := make([]string, 0, len(c.Digests))
 	for _, i := range c.Digests {
-		o, n := i/len(hierFMQueryNames), hierFMQueryNames[i%len(hierFMQueryNames)]
-		d := hierDigest(o, n)
-		ds = append(ds, d)
-		l := hierLookup(c.StoreNames, c.Placement, o, n)
-		switch {
-		case l < 0:
-			want = append(want, d.String())
-			kinds = append(kinds, fmt.Sprintf("missing/%d", len(chain(n))))
-		case c.StoreNames[l] == n:
-			kinds = append(kinds, "self")
-		default:
-			kinds = append(kinds, fmt.Sprintf("up%d/%d", len(chain(n))-len(chain(c.StoreNames[l])), len(chain(n))))
+		ds = append(ds, p.d[i])
+		kinds = append(kinds, p.kind[i])
+		if p.missing[i] {
+			want = append(want, p.ds[i])
 		}
 	}
 	missing, err := ba.FindMissing(context.Background(), sim.SetOf(ds...))
@@ -289,7 +339,7 @@ func runHierFM(m *sim.ModelBlobAccess, c hierFMCase) (msg, sig, outcome string, 
 		return fmt.Sprintf("FindMissing(%v) with [%s]", sim.SetStrings(sim.SetOf(ds...)), describePlacement(c.StoreNames, c.Placement))
 	})
 	if fh.fired {
-		outcome = fmt.Sprintf("fault@%d:%s", c.Fault, sim.Code(err))
+		outcome = "fault:" + sim.Code(err)
 		if err == nil {
 			return fmt.Sprintf("%s: backend call %d failed with UNAVAILABLE, but FindMissing succeeded with %v", where, c.Fault, sim.SetStrings(missing)), "hier:FindMissing:fault-swallowed", outcome, calls
 		}
@@ -299,7 +349,7 @@ func runHierFM(m *sim.ModelBlobAccess, c hierFMCase) (msg, sig, outcome string, 
 		return "", "", outcome, calls
 	}
 	sort.Strings(kinds)
-	outcome = fmt.Sprintf("%s:%s:calls=%d", sim.Code(err), strings.Join(kinds, ","), calls)
+	outcome = sim.Code(err) + ":" + strings.Join(kinds, ",") + ":calls=" + string(rune('0'+calls))
 	if err != nil {
 		return fmt.Sprintf("%s: unexpected error %v", where, err), "hier:FindMissing:unexpected-error", outcome, calls
 	}
@@ -330,16 +380,17 @@ func subsetsUpTo(n, k int) [][]int {
 func hierFMSub(r *ev.Run) {
 	storeNames := hierStoreNames[:ev.Pick(r, 5, 6)]
 	maxSet := ev.Pick(r, 4, 5)
+	faultMaxSet := ev.Pick(r, 2, 5)
 	nbits := 2 * len(storeNames)
 	sets := subsetsUpTo(2*len(hierFMQueryNames), maxSet)
-	sub := r.NewSub("hier-findmissing", "venum", fmt.Sprintf("all %d placements of 2 objects over %v x all %d digest sets of size<=%d over 2 objects x names %v x {no fault, fault at every backend call index}", 1<<nbits, storeNames, len(sets), maxSet, hierFMQueryNames))
+	sub := r.NewSub("hier-findmissing", "venum", fmt.Sprintf("all %d placements of 2 objects over %v x all %d digest sets of size<=%d over 2 objects x names %v, fault-free; plus a fault at every backend call index for every set of size<=%d", 1<<nbits, storeNames, len(sets), maxSet, hierFMQueryNames, faultMaxSet))
 	done := sub.Timer()
 	defer done()
 	var outcomes ev.Set
 	type res struct{ evals, nontriv int64 }
 	results := make([]res, 1<<nbits)
 	par.For(1<<nbits, func(pl int) {
-		m := hierBackend(storeNames, pl)
+		m := newHierFMPlan(storeNames, pl)
 		local := map[string]bool{}
 		for si, set := range sets {
 			c := hierFMCase{StoreNames: storeNames, Placement: pl, Digests: set, Fault: -1}
@@ -363,6 +414,9 @@ func hierFMSub(r *ev.Run) {
 			}
 			if pl == 0b00101_00010 && si%199 == 150 {
 				r.Sample(map[string]any{"sub": "hier-findmissing", "case": c, "placement": describePlacement(storeNames, pl), "outcome": oc})
+			}
+			if len(set) > faultMaxSet {
+				continue
 			}
 			for k := 0; k < calls; k++ {
 				c.Fault = k
